@@ -2,7 +2,8 @@
 (* The abstract document machine: what the pdfcpu API operations mean for a document.       *)
 (*                                                                                          *)
 (* State                                                                                    *)
-(*   pages    sequence of pages [mark, bid, rot, media, crop, trim, bleed, art, cinh]        *)
+(*   pages    sequence of pages [mark, bid, rot, media, crop, trim, bleed, art] plus the     *)
+(*            bookkeeping fields cinh, pcrop, omedia                                        *)
 (*            (inheritance through the page tree is resolved: every page carries its        *)
 (*            effective rotation and boxes; NoBox = the box is absent and defaults)         *)
 (*   nblank   number of blank pages created so far (blank pages get bid = 1, 2, ...)        *)
@@ -38,14 +39,17 @@ NoBox == <<>>
 IsBox(b) == b # NoBox
 Inset(b, m) == <<b[1] + m, b[2] + m, b[3] - m, b[4] - m>>
 
-Page(mark, rot, media, crop, cinh) ==
+(* cinh / pcrop / omedia are bookkeeping about where boxes live in the file (cinh: the page's crop box comes  *)
+(* from an ancestor; pcrop: some ancestor Pages node defines a crop box; omedia: the page defines its own     *)
+(* media box); they never influence a value, they only delimit the documents the model talks about (Ambig).   *)
+Page(mark, rot, media, crop, cinh, pcrop, omedia) ==
   [mark |-> mark, bid |-> 0, rot |-> rot % 360, media |-> media, crop |-> crop,
-   trim |-> NoBox, bleed |-> NoBox, art |-> NoBox, cinh |-> cinh]
+   trim |-> NoBox, bleed |-> NoBox, art |-> NoBox, cinh |-> cinh, pcrop |-> pcrop, omedia |-> omedia]
 (* A blank page: no content; its MediaBox is the effective MediaBox of the page it was inserted for.     *)
 (* Its rotation at birth is not specified by the operation (rot counts the rotation applied afterwards). *)
-Blank(bid, media) ==
+Blank(bid, media, pcrop) ==
   [mark |-> "", bid |-> bid, rot |-> 0, media |-> media, crop |-> NoBox,
-   trim |-> NoBox, bleed |-> NoBox, art |-> NoBox, cinh |-> FALSE]
+   trim |-> NoBox, bleed |-> NoBox, art |-> NoBox, cinh |-> FALSE, pcrop |-> pcrop, omedia |-> TRUE]
 
 (* effective boxes: crop defaults to media; trim, bleed, art default to crop *)
 EffCrop(p)  == IF IsBox(p.crop) THEN p.crop ELSE p.media
@@ -61,25 +65,27 @@ TreePages(t) ==
         LET rot   == IF p.rot >= 0 THEN p.rot ELSE IF g.node /\ g.rot >= 0 THEN g.rot ELSE IF t.rot >= 0 THEN t.rot ELSE 0
             media == IF IsBox(p.media) THEN p.media ELSE IF g.node /\ IsBox(g.media) THEN g.media ELSE t.media
             crop  == IF IsBox(p.crop) THEN p.crop ELSE IF g.node /\ IsBox(g.crop) THEN g.crop ELSE NoBox
-        IN Page(p.mark, rot, media, crop, ~IsBox(p.crop) /\ IsBox(crop))
+        IN Page(p.mark, rot, media, crop, ~IsBox(p.crop) /\ IsBox(crop), g.node /\ IsBox(g.crop), IsBox(p.media))
   IN FlattenSeq([i \in 1..Len(t.groups) |->
                   [j \in 1..Len(t.groups[i].pages) |-> eff(t.groups[i], t.groups[i].pages[j])]])
-(* Shapes the model talks about: a page that defines its own MediaBox below a node with a CropBox also    *)
-(* defines its own CropBox (readers disagree on whether the inherited CropBox survives a new MediaBox).    *)
-TreeOK(t) == \A i \in 1..Len(t.groups) : LET g == t.groups[i] IN
-               g.node /\ IsBox(g.crop) => \A j \in 1..Len(g.pages) : IsBox(g.pages[j].media) => IsBox(g.pages[j].crop)
+(* Documents the model talks about: no page that defines its own MediaBox, has no CropBox of its own and   *)
+(* sits below a Pages node with a CropBox.  (ISO 32000 lets it inherit that CropBox clipped to its MediaBox; *)
+(* pdfcpu's XRefTable.PageBoundaries treats the CropBox as reset by the MediaBox while PageDict's inherited   *)
+(* attributes keep it - the effective box of such a page is not well defined inside pdfcpu.)                  *)
+Ambig(p) == p.omedia /\ p.pcrop /\ (~IsBox(p.crop) \/ p.cinh)
+Unambiguous(ps) == \A i \in 1..Len(ps) : ~Ambig(ps[i])
 
 ---------------------------------------------------------------------------
 (* Page operations on a page list ps; S is a set of page numbers, lst a list of page numbers. *)
 InsertBlankP(ps, S, before, nb) ==
   LET piece(i) == IF i \in S
-                    THEN LET b == Blank(nb + Cardinality({j \in S : j <= i}), ps[i].media)
+                    THEN LET b == Blank(nb + Cardinality({j \in S : j <= i}), ps[i].media, ps[i].pcrop)
                          IN IF before THEN <<b, ps[i]>> ELSE <<ps[i], b>>
                     ELSE <<ps[i]>>
   IN FlattenSeq([i \in 1..Len(ps) |-> piece(i)])
 
 (* pages that went through an extraction carry their attributes themselves afterwards *)
-Own(p)          == [p EXCEPT !.cinh = FALSE]
+Own(p)          == [p EXCEPT !.cinh = FALSE, !.pcrop = FALSE, !.omedia = TRUE]
 KeepP(ps, S)    == LET a == SelAsc(S \cap (1..Len(ps))) IN [i \in 1..Len(a) |-> Own(ps[a[i]])]
 CollectP(ps, l) == [i \in 1..Len(l) |-> Own(ps[l[i]])]
 RotateP(ps, S, r) == [i \in 1..Len(ps) |-> IF i \in S THEN [ps[i] EXCEPT !.rot = (@ + r) % 360] ELSE ps[i]]
@@ -88,6 +94,7 @@ RotateP(ps, S, r) == [i \in 1..Len(ps) |-> IF i \in S THEN [ps[i] EXCEPT !.rot =
 AddBoxesP(ps, S, pb) ==
   [i \in 1..Len(ps) |-> IF i \notin S THEN ps[i] ELSE
      [ps[i] EXCEPT !.media = IF IsBox(pb.media) THEN pb.media ELSE @,
+                   !.omedia = IF IsBox(pb.media) THEN TRUE ELSE @,
                    !.crop  = IF IsBox(pb.crop)  THEN pb.crop  ELSE @,
                    !.cinh  = IF IsBox(pb.crop)  THEN FALSE    ELSE @,
                    !.trim  = IF IsBox(pb.trim)  THEN pb.trim  ELSE @,
